@@ -71,6 +71,7 @@ package tcplistener
 // whatever the reader callback delivered is processed, also when it came together with an error (the last fragment
 // before EOF): exactly one processBuffer call iff n > 0 (ghost lastn = the n of the last readInput)
 //@ func (mlr *multiLineReader) Read() error
+//@   flag counted
 //@   requires mlrok(mlr)
 //@   define   cbuf === mlr.buffer && mlrnext == 0 && mlrgap == 0 && mlrend == -1 && forall p int :: !mlrtest[p]
 //@   modifies mlr.offsetAppend, mlr.offsetSearch, mlr.buffer[:], mlrnext, mlrgap, mlrtest, lastn
@@ -79,6 +80,7 @@ package tcplistener
 //@   ensures[lines-kept] mlrlines(mlr)
 
 //@ func (mlr *multiLineReader) Flush()
+//@   flag counted
 //@   requires mlrok(mlr)
 //@   define   cbuf === mlr.buffer && mlrnext == 0 && mlrgap == 0 && mlrend == -1 && forall p int :: !mlrtest[p]
 //@   modifies mlr.offsetAppend, mlr.offsetSearch, mlr.buffer[:], mlrnext, mlrgap, mlrtest
@@ -87,7 +89,50 @@ package tcplistener
 //@   ensures[partial-last-line-kept] mlr.offsetAppend == old(mlr.offsetAppend) - old(mlr.offsetSearch) && forall k int :: 0 <= k && k < mlr.offsetAppend ==> mlr.buffer[k] == old(mlr.buffer[mlr.offsetAppend - now(mlr.offsetAppend) + k])
 
 //@ func (mlr *multiLineReader) FlushAll()
+//@   flag counted
 //@   requires mlrok(mlr)
 //@   define   cbuf === mlr.buffer && mlrnext == 0 && mlrgap == 0 && mlrend == mlr.offsetAppend && forall p int :: !mlrtest[p]
 //@   modifies mlr.offsetAppend, mlr.offsetSearch, mlrnext, mlrgap, mlrtest
 //@   ensures[invariant-kept] mlrok(mlr) && mlr.offsetAppend == 0
+
+// ==== the connection loop (C08: "under any timing of the periodic flush"; C01: final flush). Functional-only unit (flag
+// nosafety noinfer): while the connection lives, a flush - on an idle time-out or a deadline renewal - is the reader's
+// Flush (which keeps the partial last line), never FlushAll, and is followed by the sink's Flush; FlushAll happens
+// exactly once, when the connection ends, and the sink is flushed after it (ghost event clock fevent).
+//@ ghost var fevent int
+//@ ghost var lastflushall int
+//@ ghost var lastsinkflush int
+//@ extern func (s base.MessageReceiverSink) Flush()
+//@   flag counted
+//@   modifies everything
+//@   ghostset fevent := fevent + 1
+//@   ghostset lastsinkflush := fevent + 1
+//@   ghostset lastflushall := lastflushall
+//@ extern func (s base.MessageReceiverSink) Close()
+//@   modifies everything
+//@   ghostset fevent := fevent
+//@   ghostset lastsinkflush := lastsinkflush
+//@   ghostset lastflushall := lastflushall
+// (set-up helpers: trusted, they only build objects)
+//@ func (listener *tcpLineListener) createConnectionReader(connLogger logger.Logger, conn *net.TCPConn) *util.NetConnWrapper
+//@   trusted
+//@   modifies nothing
+//@   ensures result != nil
+//@ func (listener *tcpLineListener) launchConnectionCloser(connLogger logger.Logger, conn *net.TCPConn) *channels.SignalAwaitable
+//@   trusted
+//@   modifies nothing
+//@   ensures result != nil
+//@ func newMultiLineReader(read ioReader, test headTester, minBufferSize, softRecordLimit int, consume recordConsumer) *multiLineReader
+//@   trusted
+//@   modifies nothing
+//@   ensures result != nil
+//@ func (listener *tcpLineListener) runConnection(connLogger logger.Logger, conn *net.TCPConn, clientNumber base.ClientNumber)
+//@   property C08 C01
+//@   flag nosafety noinfer
+//@   requires listener != nil
+//@   modifies everything
+//@   ensures[final-flush-all-then-sink-flush] ncalls("tcplistener.multiLineReader.FlushAll") == old(ncalls("tcplistener.multiLineReader.FlushAll")) + 1 && lastsinkflush > old(fevent)
+//@   loop 1: invariant ncalls("tcplistener.multiLineReader.FlushAll") == old(ncalls("tcplistener.multiLineReader.FlushAll")) && fevent >= old(fevent)
+//@   loop 1: step[a-flush-while-the-connection-lives-keeps-the-partial-line] ncalls("tcplistener.multiLineReader.FlushAll") == prev(ncalls("tcplistener.multiLineReader.FlushAll"))
+//@   loop 1: step[reader-flush-is-followed-by-the-sink-flush] ncalls("tcplistener.multiLineReader.Flush") - prev(ncalls("tcplistener.multiLineReader.Flush")) == ncalls("base.MessageReceiverSink.Flush") - prev(ncalls("base.MessageReceiverSink.Flush"))
+//@   loop 1: step[one-read-per-round] ncalls("tcplistener.multiLineReader.Read") == prev(ncalls("tcplistener.multiLineReader.Read")) + 1
